@@ -33,15 +33,18 @@ Inductive blob := Good (t : nat) | Raises (e : exn) | PickledNone | OtherObject.
 Record row := Row { r_key : nat; r_ver : nat; r_blob : blob; r_hit : Z }.
 
 (* models table: absent / present with other columns / present with the expected four columns
-   (extra = an additional fifth column: usable by the SELECT/INSERT, rejected by the layout check) *)
-Inductive models := MAbsent | MWrong | MOk (extra : bool) (rows : list row).
+   (extra = usable by the SELECT/INSERT but rejected by the layout check: an additional fifth column, or the
+   right names and key with other declared types) / MView = a VIEW named models: the table check does not see it,
+   DROP TABLE IF EXISTS models raises on it, INSERT into it raises: the code cannot repair this *)
+Inductive models := MAbsent | MWrong | MView | MOk (extra : bool) (rows : list row).
 Inductive meta := TAbsent | TWrong | TOk.
-Inductive db := Missing | Garbage | Db (m : models) (t : meta).
+(* Dir = the database path is a directory: sqlite3.connect raises, nothing can repair it *)
+Inductive db := Missing | Garbage | Dir | Db (m : models) (t : meta).
 Inductive version := Clean (n : nat) | Dirty (n : nat).
 
 Record state := St { s_db : db; s_init : bool; s_clock : Z; s_ver : version }.
 
-Inductive layout_kind := LModelsDropped | LModelsWrong | LModelsExtra | LMetaDropped | LMetaWrong | LMetaEmptied.
+Inductive layout_kind := LModelsDropped | LModelsWrong | LModelsExtra | LModelsView | LMetaDropped | LMetaWrong | LMetaEmptied.
 
 Inductive op :=
 | Parse (t : nat) (exp : Z) (upd : bool)   (* exp: cache_expiration_days IN MICROSECONDS (n days = n * DAY) *)
@@ -51,7 +54,9 @@ Inductive op :=
 | CorruptEntry (key : nat) (b : blob)
 | CorruptLayout (k : layout_kind)
 | CorruptFile
-| DeleteFile.
+| DeleteFile
+| ZeroFile       (* the file truncated to 0 bytes: a valid, empty SQLite database *)
+| MakeDir.
 
 Inductive out := OTree (t : nat) | ONoTree | OOther | ORaise (e : exn) | ODbRaise (e : dberr) | ONone.
 
@@ -96,10 +101,19 @@ Definition prune (now exp : Z) (d : db) : db :=
   | _ => d
   end.
 
-(* parser.py:1009-1048: the database as the lookup sees it *)
-Definition init_db (s : state) (exp : Z) : db :=
-  let d0 := connect (s_db s) in
-  if s_init s then d0 else prune (s_clock s) exp (check_structure (integrity d0)).
+(* connect + the once-per-process block of parse(): the database as the lookup sees it, or None when
+   sqlite3.DatabaseError is raised before the lookup: the path is a directory (connect: "unable to open database
+   file"), or there is a view named models (DROP TABLE IF EXISTS models: "use DROP VIEW to delete view models") *)
+Definition init_db (s : state) (exp : Z) : option db :=
+  match connect (s_db s) with
+  | Dir => None
+  | d0 =>
+    if s_init s then Some d0
+    else match integrity d0 with
+         | Db MView _ => None
+         | d1 => Some (prune (s_clock s) exp (check_structure d1))
+         end
+  end.
 
 (* what a reader of the sqlite file sees *)
 Inductive bstat := BGood | BNone | BRaises (e : exn) | BOther.
@@ -117,32 +131,37 @@ Section Model.
     let rows2 := if syntax_ok t then insert t v (Good t) (s_clock s) rows else rows in
     (St (Db (MOk x rows2) mt) true (s_clock s) (s_ver s), fresh_out t, 1%nat).
 
-  (* the lookup raised sqlite3.DatabaseError (only possible when the checks were skipped) *)
-  Definition db_fail (d : db) (e : dberr) (s : state) (t : nat) : state * out * nat :=
-    if handles_dberr then (St d false (s_clock s) (s_ver s), fresh_out t, 1%nat)
-    else (St d true (s_clock s) (s_ver s), ODbRaise e, 0%nat).
+  (* some statement raised sqlite3.DatabaseError after [n] calls of _parse.  Handled (decorator): forget the
+     initialisation, parse without cache.  Not handled: the error escapes; [i] = is the database marked initialised *)
+  Definition db_fail (d : db) (e : dberr) (s : state) (t : nat) (i : bool) (n : nat) : state * out * nat :=
+    if handles_dberr then (St d false (s_clock s) (s_ver s), fresh_out t, S n)
+    else (St d i (s_clock s) (s_ver s), ODbRaise e, n).
 
   Definition parse_step (s : state) (t : nat) (exp : Z) (upd : bool) : state * out * nat :=
     match s_ver s with
-    | Dirty _ => (s, fresh_out t, 1%nat)                                     (* parser.py:998-1000 *)
+    | Dirty _ => (s, fresh_out t, 1%nat)                                     (* dirty version: no caching *)
     | Clean v =>
       match init_db s exp with
-      | Db (MOk x rows) mt =>
+      | None => db_fail (connect (s_db s)) OperationalError s t (s_init s) 0
+      | Some (Db (MOk x rows) mt) =>
         match lookup t v rows with
         | None => miss x rows mt s v t
         | Some r =>
-          (* parser.py:1067-1079 *)
           let rows1 := if upd || (r_hit r <? s_clock s - DAY) then touch t v (s_clock s) rows else rows in
           let s1 := St (Db (MOk x rows1) mt) true (s_clock s) (s_ver s) in
-          match r_blob r with                                                 (* parser.py:1080-1083 *)
+          match r_blob r with
           | Good t' => (s1, OTree t', 0%nat)
           | OtherObject => (s1, OOther, 0%nat)
           | PickledNone => miss x rows1 mt s v t
           | Raises e => if caught e then miss x rows1 mt s v t else (s1, ORaise e, 0%nat)
           end
         end
-      | Garbage => db_fail Garbage DatabaseError s t          (* "file is not a database" *)
-      | d => db_fail d OperationalError s t                   (* "no such table / no such column" *)
+      | Some (Db MView mt) =>
+        (* initialised process: the SELECT on the (empty) view finds nothing; _parse; INSERT into a view raises *)
+        if syntax_ok t then db_fail (Db MView mt) OperationalError s t true 1
+        else (St (Db MView mt) true (s_clock s) (s_ver s), ONoTree, 1%nat)
+      | Some Garbage => db_fail Garbage DatabaseError s t true 0          (* "file is not a database" *)
+      | Some d => db_fail d OperationalError s t true 0                   (* "no such table / no such column" *)
       end
     end.
 
@@ -153,8 +172,10 @@ Section Model.
     match d with
     | Db m t =>
       match k with
-      | LModelsDropped => Db MAbsent t
-      | LModelsWrong => Db MWrong t
+      (* DROP TABLE IF EXISTS models raises on a view: these two leave a view alone *)
+      | LModelsDropped => match m with MView => d | _ => Db MAbsent t end
+      | LModelsWrong => match m with MView => d | _ => Db MWrong t end
+      | LModelsView => Db MView t
       | LModelsExtra => Db (match m with MOk _ rows => MOk true rows | other => other end) t
       | LMetaDropped => Db m TAbsent
       | LMetaWrong => Db m TWrong
@@ -175,6 +196,8 @@ Section Model.
     | CorruptLayout k => (St (layout_step k (s_db s)) (s_init s) (s_clock s) (s_ver s), ONone, 0%nat)
     | CorruptFile => (St Garbage (s_init s) (s_clock s) (s_ver s), ONone, 0%nat)
     | DeleteFile => (St Missing (s_init s) (s_clock s) (s_ver s), ONone, 0%nat)
+    | ZeroFile => (St (Db MAbsent TAbsent) (s_init s) (s_clock s) (s_ver s), ONone, 0%nat)
+    | MakeDir => (St Dir (s_init s) (s_clock s) (s_ver s), ONone, 0%nat)
     end.
 
   Definition next (s : state) (o : op) : state := fst (fst (step s o)).
@@ -200,6 +223,8 @@ Section Model.
     match d with
     | Missing => SUnreadable
     | Garbage => SUnreadable
+    | Dir => SUnreadable
+    | Db MView _ => SRows []
     | Db (MOk _ rows) _ => SRows (map (fun r => (r_key r, r_ver r, stat_of r)) rows)
     | Db _ _ => SUnreadable
     end.
